@@ -11,7 +11,7 @@ ENGINE_NOTE = ("Trusted base: the hand-rolled engine /verif/rt (validated by lit
 CLAIMED = {
  "C01": dict(text="Bounded exhaustive exploration of the real crate: every schedule with at most P preemptions, every read-from choice with at most S stale reads and every spurious weak-CAS failure up to F, of 2-4 thread harnesses on the fast, full (all fast slots occupied) and fallback-only paths, with fresh and reused addresses. Oracle: instrumented pointees that are never really freed, so any touch after logical destruction, and any wild pointer, is reported on the execution where it happens.",
              technique="stateless model checking of the implementation (controlled scheduler + view-based weak memory model, preemption/stale-read bounded DFS)", ref="§7 C01"),
- "C02": dict(text="Same executions as C01; oracle is the exact count equation strong + occupied debt slots == containers + handles + guards at every quiescent point, and at the end every value destroyed exactly once, every slot empty, every control word idle, no writer reservation left.",
+ "C02": dict(text="Same executions as C01; oracle is the exact count equation strong + occupied debt slots == containers + handles + guards at every quiescent point, and at the end every value destroyed exactly once, every slot empty, every control word idle, no writer reservation left, no hand-over envelope owned by two debt nodes.",
              technique="stateless model checking of the implementation; ownership-accounting invariant on every explored execution", ref="§7 C02"),
  "C03": dict(text="Recorded call/return histories of every explored execution are checked for linearizability against an atomic-cell specification (memoised Wing-Gong search); real-time order binds calls that read nothing stale, happens-before binds the others.",
              technique="stateless model checking of the implementation + brute-force linearizability check per execution", ref="§7 C03"),
@@ -30,7 +30,7 @@ CLAIMED = {
              technique="stateless model checking of the implementation; solo-completion probe from every explored state with per-call step caps", ref="§7 C09, §6.2"),
  "C10": dict(text="Guards held across writes (1, S, S+1 of them), released in enumerated orders and through Guard::into_inner, guards outliving a consumed or dropped container, guards moved to another thread after their creator exited while a new thread claims the creator's node. Oracles: identity seen through each guard at every use, poison, exact counts at quiescence.",
              technique="stateless model checking of the implementation + snapshot/identity oracle", ref="§7 C10"),
- "C11": dict(text="Strictly sequential thread churn (node count must stay 1), a thread exiting while another starts while a writer walks the list, operations after thread-local teardown (temporary node path), a pointee destructor that uses a container. Oracles: node-count bounds through the introspection hook, no node owned at the end, the crate's own debug assertions, all C01-C03 oracles.",
+ "C11": dict(text="Strictly sequential thread churn (node count must stay 1), a thread exiting while another starts while a writer walks the list, two new threads racing for the cooling node of an exited one, a helping writer still inside the node of an exited thread when its next owner starts a transaction (3 preemptions; also with one stale read under the second model), operations after thread-local teardown (temporary node path), a pointee destructor that uses a container. Oracles: node-count bounds through the introspection hook, no node owned at the end, the crate's own debug assertions, all C01-C03 oracles.",
              technique="stateless model checking of the implementation with engine-managed thread-local storage and thread exit as explored events", ref="§7 C11"),
  "C12": dict(text="A reader of container A (on every path) against writers of container B sharing the same per-thread node, optionally a writer of A, optionally one value stored in both; a variant where B has a different pointee type so that a mis-directed help or payment is a type-tag violation. Oracles: per-container linearizability, provenance of every loaded identity, exact counts.",
              technique="stateless model checking of the implementation + per-container history and provenance oracles", ref="§7 C12"),
